@@ -26,7 +26,8 @@ SPEC = {
               rule="cases: enc 50% = real EncodeStack/DecodeStack/IsStackCounter on pcs captured by runtime.Callers from "
                    "generated call chains in the harness binary (22 link kinds: functions, value/pointer methods, generics, "
                    "closures, method values, inlinable links, recursion; two helper packages alternating or repeated; "
-                   "0..160 links, i.e. up to and beyond the 4096-byte limit) and on mutated pc slices (sub-slices, shuffles, "
+                   "0..160 links, i.e. up to and beyond the 4096-byte limit; links with multi-byte (Greek/Cyrillic/CJK) identifiers so "
+                   "that the truncation cut falls inside a character) and on mutated pc slices (sub-slices, shuffles, "
                    "pcs moved inside functions, function entries, unsymbolisable pcs mixed in, nothing symbolises), with the "
                    "frames read from runtime.CallersFrames for the same pcs sent along; dec 30% = real DecodeStack on "
                    "arbitrary strings (random bytes, quote/dot/newline-rich, mutated valid names); cache 20% = real "
